@@ -159,6 +159,8 @@ Theorem C17_rel_of_eq : forall a b eps rel : F, feq a b = true -> f_releq a b ep
 Proof. exact releq_of_eq. Qed.
 Theorem C17_rel_reflexive : forall a eps rel : F, is_nanb a = false -> f_releq a a eps rel = true.
 Proof. exact releq_refl. Qed.
+Theorem C17_abs_symmetric : forall a b eps : F, f_absdiffeq a b eps = f_absdiffeq b a eps.
+Proof. exact absdiffeq_sym. Qed.
 Theorem C17_nan_never : forall a b eps : F, is_nanb a = true \/ is_nanb b = true -> f_absdiffeq a b eps = false.
 Proof. exact absdiffeq_nan. Qed.
 
